@@ -3,6 +3,7 @@ import FcpptProofs.C02.Sound
 import FcpptProofs.C02.Progress
 import FcpptProofs.C02.Total
 import FcpptProofs.C02.TotalRec
+import FcpptProofs.C02.TypedSound
 set_option linter.unusedSimpArgs false
 set_option linter.unusedVariables false
 /-!
@@ -229,6 +230,35 @@ theorem rep_opt_never_fail_unless_fatal {g : G} {a : P} {sk : Sk} {inp : List Na
     | sugar hs _ => simp [IsSugar] at hs
     | _ => cases hx
 
+/-- a skipper (epsilon, literal, char_set, their repetitions and sequences) never fails fatally -/
+theorem skipper_never_fatal {sk : Sk} {inp : List Nat} {x : SkRes} (h : SkDerives sk inp x) :
+    ∀ ft, x = .err ft → ft = false := by
+  induction h with
+  | csetEof => intro ft hx; cases hx; rfl
+  | csetNo => intro ft hx; cases hx; rfl
+  | litEof => intro ft hx; cases hx; rfl
+  | litNo => intro ft hx; cases hx; rfl
+  | repFatal _ ih => intro ft hx; exact absurd (ih true rfl) (by simp)
+  | repMore _ _ _ ih2 => intro ft hx; exact ih2 ft hx
+  | seqErr _ ih => intro ft hx; cases hx; exact ih _ rfl
+  | seqOk _ _ _ ih2 => intro ft hx; exact ih2 ft hx
+  | _ => intro ft hx; cases hx
+
+/-- … hence the sharp form of "never fail unless a fatal error occurs": a repetition fails only because one of its
+*elements* failed fatally, on the input left after some number of kept elements (never because of the skipper, never
+because an element failed ordinarily) -/
+theorem rep_fails_only_on_fatal_element {g : G} {a : P} {sk : Sk} {inp : List Nat} {ft : Bool}
+    (h : Derives g (.rep a) sk inp (.err ft)) : ft = true ∧ ∃ inp', Derives g a sk inp' (.err true) := by
+  refine ⟨rep_opt_never_fail_unless_fatal.1 h, ?_⟩
+  generalize hp : P.rep a = p at h
+  generalize hx : Res.err ft = x at h
+  induction h with
+  | repFatal h1 _ => cases hp; exact ⟨_, h1⟩
+  | repFatalS _ h2 _ => exact absurd (skipper_never_fatal h2 true rfl) (by simp)
+  | repMoreErr _ _ _ _ ih => cases hp; cases hx; exact ih rfl rfl
+  | sugar hs _ _ => subst hp; simp [IsSugar] at hs
+  | _ => first | (cases hp; done) | (cases hx; done) | (cases hp; cases hx; done)
+
 /-- **repetition is greedy**: it stops only where one more element-then-skipper fails (non-fatally) -/
 theorem rep_greedy {g : G} {a : P} {sk : Sk} {inp rest : List Nat} {vs : Val}
     (h : Derives g (.rep a) sk inp (.ok vs rest)) :
@@ -423,7 +453,186 @@ theorem wf0_wfr (rk : Nat → Nat) (K : Nat) : ∀ (p : P) (k : Nat), WF0 p → 
   | convIf _ a ih => intro k h; exact ih _ h
   | ignore a ih => intro k h; exact ih _ h
   | named a ih => intro k h; exact ih _ h
+  | map _ a ih => intro k h; exact ih _ h
   | _ => intro k h; trivial
+
+/-! ## `construct` / `as_struct` / `convert_const`, `float_`, the stream entry points -/
+
+/-- `construct<Result>(p)`, `as_struct<Result>(p)`, `convert_const{p, c}` succeed exactly when `p` does, consume what
+`p` consumes, replace the value (`Result{v}` / the constant) and leave every error — fatal flag included — unchanged -/
+theorem map_spec {g : G} {m : Mapper} {a : P} {sk : Sk} {inp : List Nat} {x : Res} :
+    Derives g (.map m a) sk inp x ↔
+      (∃ v r, Derives g a sk inp (.ok v r) ∧ x = .ok (m.apply v) r) ∨ (∃ ft, Derives g a sk inp (.err ft) ∧ x = .err ft) := by
+  constructor
+  · intro h
+    cases h with
+    | mapOk h1 => exact .inl ⟨_, _, h1, rfl⟩
+    | mapErr h1 => exact .inr ⟨_, h1, rfl⟩
+    | sugar hs _ => simp [IsSugar] at hs
+  · rintro (⟨v, r, h1, rfl⟩ | ⟨ft, h1, rfl⟩)
+    · exact .mapOk h1
+    · exact .mapErr h1
+
+/-- `convert_const` yields its constant whatever the wrapped parser produced -/
+theorem convert_const_value {g : G} {c : Val} {a : P} {sk : Sk} {inp rest : List Nat} {v : Val}
+    (h : Derives g (.map (.const c) a) sk inp (.ok v rest)) : v = c := by
+  rcases map_spec.mp h with ⟨w, r, _, hx⟩ | ⟨ft, _, hx⟩
+  · cases hx; rfl
+  · cases hx
+
+/-- `float_` is `lexeme(-lit('-') >> +digits >> lit('.') >> +digits)` followed by the conversion of the two digit strings -/
+theorem float_spec {g : G} {sk : Sk} {inp : List Nat} {x : Res} :
+    Derives g .float sk inp x ↔ ∃ y, Derives g (desugar .float) sk inp y ∧ x = postRes .float y := by
+  constructor
+  · intro h
+    generalize hp : P.float = p at h
+    cases h with
+    | sugar hs h1 => subst hp; exact ⟨_, h1, rfl⟩
+    | _ => cases hp
+  · rintro ⟨y, h1, rfl⟩
+    exact .sugar (p := .float) trivial h1
+
+/-- `parse_stream` / `phrase_parse_stream` / `grammar_parse_stream`: success with value `v` leaving the stream at offset
+`q` iff, after the initial skip, the parser derives `v` with exactly `s.drop q` left — the rest of the input can be read
+from the stream afterwards; nothing requires it to be empty -/
+theorem parseStream_ok_iff (g : G) (p : P) (sk : Sk) (s : List Nat) (v : Val) (rest : List Nat) :
+    (∃ f q, M.parseStream g f p sk s = some (.ok v, q) ∧ s.drop q = rest) ↔
+      ∃ r0, SkDerives sk s (.ok r0) ∧ Derives g p sk r0 (.ok v rest) := by
+  constructor
+  · rintro ⟨f, q, h, rfl⟩
+    simp only [M.parseStream] at h
+    cases h0 : M.skip s f sk 0 with
+    | none => simp [h0] at h
+    | some m0 =>
+      cases m0 with
+      | err ft q0 => simp [h0] at h
+      | ok p0 =>
+        simp only [h0] at h
+        have d0 : SkDerives sk s (.ok (s.drop p0)) := by
+          apply skip_sound (f := f)
+          have := skip_refines s f sk 0
+          rw [h0] at this; simpa [absSk] using this.symm
+        cases h1 : M.run g s f p sk p0 with
+        | none => simp [h1] at h
+        | some m1 =>
+          cases m1 with
+          | err ft q1 => simp [h1] at h
+          | ok v1 p1 =>
+            simp [h1] at h
+            obtain ⟨rfl, rfl⟩ := h
+            refine ⟨_, d0, ?_⟩
+            apply parse_sound (f := f)
+            rw [← run_refines, h1]; rfl
+  · rintro ⟨r0, d0, d1⟩
+    obtain ⟨f0, e0⟩ := skip_complete d0
+    obtain ⟨f1, e1⟩ := parse_complete d1
+    have e0 := skip_mono (f' := f0 + f1) (by omega) e0
+    have e1 := parse_mono (f' := f0 + f1) (by omega) e1
+    have r0' := skip_refines s (f0 + f1) sk 0
+    simp only [List.drop_zero, e0] at r0'
+    cases h0 : M.skip s (f0 + f1) sk 0 with
+    | none => simp [h0] at r0'
+    | some m0 =>
+      cases m0 with
+      | err ft q0 => simp [h0, absSk] at r0'
+      | ok p0 =>
+        simp [h0, absSk] at r0'
+        subst r0'
+        have r1 := run_refines g s (f0 + f1) p sk p0
+        rw [e1] at r1
+        cases h1 : M.run g s (f0 + f1) p sk p0 with
+        | none => simp [h1] at r1
+        | some m1 =>
+          cases m1 with
+          | err ft q1 => simp [h1, absRes] at r1
+          | ok v1 p1 =>
+            simp [h1, absRes] at r1
+            exact ⟨f0 + f1, p1, by simp [M.parseStream, h0, h1, r1.1], r1.2⟩
+
+/-- the string entry points are the stream entry points followed by `consume_remaining` -/
+theorem parseString_of_parseStream (g : G) (f : Nat) (p : P) (sk : Sk) (s : List Nat) :
+    M.parseString g f p sk s =
+      (M.parseStream g f p sk s).map fun
+        | (.ok v, q) => if (s.drop q).isEmpty then .ok v else .err false
+        | (.err ft, _) => .err ft := by
+  simp only [M.parseString, M.parseStream]
+  rcases M.skip s f sk 0 with _ | ⟨p0⟩ | ⟨ft, q⟩ <;> simp
+  rcases M.run g s f p sk p0 with _ | ⟨v, p1⟩ | ⟨ft, q⟩ <;> simp
+  split <;> rfl
+
+/-! ## the typed result plumbing (`sequence_result`, `alternative_result`, `repetition_result`) -/
+
+/-- `detail::sequence_result(l, r)` has type `sequence_result<Left, Right>` -/
+theorem sequence_result_typed {defs : Nat → Ty} {l r : Ty} {a b : TVal} (ha : HasTy defs a l) (hb : HasTy defs b r) :
+    ∃ v, seqVal l r a b = some v ∧ HasTy defs v (seqTy l r) := seqVal_hasTy ha hb
+
+/-- `fcppt::unit` is dropped on either side of a sequence -/
+theorem seqTy_unit (t : Ty) : seqTy .unit t = t ∧ seqTy t .unit = t := by
+  constructor
+  · simp [seqTy]
+  · unfold seqTy; split
+    · rename_i h; exact h.symm
+    · simp
+
+theorem TyL.append_assoc : ∀ (a b c : TyL), (a.append b).append c = a.append (b.append c)
+  | .nil, b, c => by simp [TyL.append]
+  | .cons t ts, b, c => by simp [TyL.append, TyL.append_assoc ts b c]
+
+/-- tuple flattening makes the result type of a sequence independent of how its parts are grouped -/
+theorem seqTy_assoc (a b c : Ty) : seqTy (seqTy a b) c = seqTy a (seqTy b c) := by
+  by_cases ha : a = .unit
+  · subst ha; simp [seqTy]
+  · by_cases hb : b = .unit
+    · subst hb; simp [seqTy, ha]
+    · by_cases hc : c = .unit
+      · subst hc; simp [seqTy, ha, hb]
+      · simp [seqTy, ha, hb, hc, toTup, TyL.append_assoc]
+
+/-- `detail::make_alternative<Result>` applied to the value of either branch has type `alternative_result<Left, Right>` -/
+theorem alternative_result_typed {E : TEnv} {a b : P} {ta tb τ : Ty} {v : TVal}
+    (hta : typeOf E a = some ta) (htb : typeOf E b = some tb) (ht : typeOf E (.alt a b) = some τ) :
+    (HasTy E.defs v ta → ∃ w, altInj (altList ta tb) ta v = some w ∧ HasTy E.defs w τ) ∧
+    (HasTy E.defs v tb → ∃ w, altInj (altList ta tb) tb v = some w ∧ HasTy E.defs w τ) := by
+  simp only [typeOf, hta, htb] at ht
+  exact ⟨fun h => altInj_hasTy (.inl rfl) ht h, fun h => altInj_hasTy (.inr rfl) ht h⟩
+
+/-- duplicate alternatives are merged: the alternatives of the result are exactly those of both sides -/
+theorem altList_mem (l r x : Ty) : (altList l r).contains x = ((toVar l).contains x || (toVar r).contains x) := by
+  simp [altList, uniq_contains, TyL.contains_append]
+
+/-- an alternative of two parsers with the same (non-variant) result has that result, not a variant -/
+theorem altTy_same (t : Ty) (h : ∀ ts, t ≠ .var ts) : altTy t t = t := by
+  have : toVar t = .cons t .nil := by cases t <;> simp [toVar] <;> exact absurd rfl (h _)
+  simp [altTy, altList, this, TyL.append, uniq, uniqInto, TyL.contains, TyL.snoc, single]
+
+/-- a repetition of characters is a string, of anything else a vector; `push_back` stays inside that type -/
+theorem repetition_result_typed {defs : Nat → Ty} {t : Ty} {x xs : TVal} (hx : HasTy defs x t) (hxs : HasTy defs xs (repTy t)) :
+    repTy .ch = .str ∧ (t ≠ .ch → repTy t = .vec t) ∧ HasTy defs (repNil t) (repTy t) ∧
+      ∃ v, repCons x xs = some v ∧ HasTy defs v (repTy t) :=
+  ⟨by simp [repTy], fun h => by simp [repTy, h], repNil_hasTy t, repCons_hasTy hx hxs⟩
+
+/-- more fuel never changes the typed value -/
+theorem flat_fuel_mono (E : TEnv) (g : G) {n n' : Nat} {p : P} {v : Val} {tv : TVal}
+    (h : flat E g n p v = some tv) (hle : n ≤ n') : flat E g n' p v = some tv := flat_mono E g h hle
+
+/-- **The untyped value produced by the semantics inhabits the flattened type.**  In a grammar whose rules have their
+declared result types (`WT`), for every parser with a result type (`typeOf E p = some τ`, i.e. the C++ instantiates):
+whenever `p` succeeds with the universal value `v`, re-applying the plumbing of `sequence_result` / `alternative_result` /
+`repetition_result` / `repetition_plus` / `construct` / `as_struct` / `convert_const` bottom-up (`flat`) is defined on
+`v` and its result is an inhabitant of `τ`. -/
+theorem typed_value_inhabits (E : TEnv) (g : G) (hwt : WT E g) {p : P} {τ : Ty} (hp : typeOf E p = some τ)
+    {sk : Sk} {inp rest : List Nat} {v : Val} (h : Derives g p sk inp (.ok v rest)) :
+    ∃ n tv, flat E g n p v = some tv ∧ HasTy E.defs tv τ :=
+  good_flat E g hwt (derives_good h v rest rfl) τ hp
+
+/-- … in particular for the values of the position-threading implementation model -/
+theorem typed_run_inhabits (E : TEnv) (g : G) (hwt : WT E g) {p : P} {τ : Ty} (hp : typeOf E p = some τ)
+    {s : List Nat} {f : Nat} {sk : Sk} {pos q : Nat} {v : Val} (h : M.run g s f p sk pos = some (.ok v q)) :
+    ∃ n tv, flat E g n p v = some tv ∧ HasTy E.defs tv τ := by
+  have hd : Derives g p sk (s.drop pos) (.ok v (s.drop q)) := by
+    apply parse_sound (f := f)
+    rw [← run_refines, h]; rfl
+  exact typed_value_inhabits E g hwt hp hd
 
 /-! ## non-vacuity: concrete grammars run through the model -/
 
@@ -466,5 +675,25 @@ example : Derives exG (.lit 97) .eps [97] (.ok .unit []) := .litOk _ _ _
 example : Derives exG (.fatal (.lit 97)) .eps [98] (.err true) := .fatalErr (.litNo _ _ _ _ (by decide))
 example : Derives exG (.rep (.lit 97)) .eps [97, 98] (.ok (.cons .unit .nil) [98]) :=
   .repMore (.litOk _ _ _) (.eps _) (.repStop (.litNo _ _ _ _ (by decide)))
+
+-- typed layer: `'a' >> [bc] >> *[c]` has the result `tuple<char, string>`: the unit of the literal is dropped, the repetition of
+-- characters is a string; the value of "abcc"
+def exE : TEnv := { ruleTy := fun _ => .unit, defs := fun k => if k = 7 then .tup (.cons .ch (.cons .str .nil)) else .unit }
+example : typeOf exE (.seq (.lit 97) (.seq (.cset [98, 99]) (.rep (.cset [99])))) = some (.tup (.cons .ch (.cons .str .nil))) := by decide
+example : flat exE exG 10 (.seq (.lit 97) (.seq (.cset [98, 99]) (.rep (.cset [99]))))
+    (.pair .unit (.pair (.ch 98) (.cons (.ch 99) (.cons (.ch 99) .nil)))) = some (.tup (.cons (.ch 98) (.cons (.str [99, 99]) .nil))) := by decide
+-- `([a] | 'x') | ([a] >> [a])`: variant<char, unit> merged with a tuple gives variant<char, unit, tuple<char,char>>; the right
+-- branch's value gets index 2
+example : typeOf exE (.alt (.alt (.cset [97]) (.lit 120)) (.seq (.cset [97]) (.cset [97]))) =
+    some (.var (.cons .ch (.cons .unit (.cons (.tup (.cons .ch (.cons .ch .nil))) .nil)))) := by decide
+example : flat exE exG 10 (.alt (.alt (.cset [97]) (.lit 120)) (.seq (.cset [97]) (.cset [97]))) (.inr (.pair (.ch 97) (.ch 97))) =
+    some (.inj 2 (.tup (.cons (.ch 97) (.cons (.ch 97) .nil)))) := by decide
+-- `[a] | [b]` is a plain char; `+('a' >> [b])` is a string (unit dropped inside), `+(([a] >> [b]))` does not instantiate
+example : typeOf exE (.alt (.cset [97]) (.cset [98])) = some .ch := by decide
+example : typeOf exE (.plus (.seq (.lit 97) (.cset [98]))) = some .str := by decide
+example : typeOf exE (.plus (.seq (.cset [97]) (.cset [98]))) = none := by decide
+-- as_struct over the tuple<char,string>
+example : typeOf exE (.map (.asStruct 7) (.seq (.cset [98]) (.rep (.cset [99])))) = some (.named 7) := by decide
+example : WT exE { exG with rules := fun _ => .eps } := fun _ => rfl
 
 end Fcppt.C02
